@@ -20,6 +20,7 @@ from .. import rig as R, ref, gen, dump, ov
 from ..orch import h
 
 ID = "C14"
+TECHNIQUE = 'runtime monitoring - authorization matrix recomputed by the harness (role-set intersection) against observed behaviour on every path (EVENT, stored REQ, live push), output-validator call log matched against every EVENT frame, role read-back incl. close/re-open'
 LEVEL = "exploration"
 RULE = (
     "cases = (backend, action->roles map with save and query each drawn from the non-empty subsets of {a,r,w,s} (all 225 "
